@@ -31,6 +31,10 @@ class Param:
         """finite list of concrete values for partitioning, or None"""
         return None
 
+    def contains(self, v):
+        """is the concrete value v inside this parameter's declared domain?"""
+        return False
+
 
 class _Str(Param):
     kind = 't'
@@ -50,6 +54,12 @@ class _Str(Param):
     def build(self, name):
         return 'mk(%s_n, [%s], %r, %r)' % (name, ', '.join('%s_%d' % (name, i) for i in range(self.cap)),
                                            self.kind, self.maxch)
+
+    def contains(self, v):
+        if not isinstance(v, str if self.kind == 't' else bytes):
+            return False
+        lim = self.maxch if self.maxch is not None else (0x110000 if self.kind == 't' else 256)
+        return self.min <= len(v) <= self.cap and all((ord(c) if self.kind == 't' else c) < lim for c in v)
 
     def describe(self):
         lim = self.maxch if self.maxch is not None else (0x110000 if self.kind == 't' else 256)
@@ -82,6 +92,9 @@ class Int(Param):
     def build(self, name):
         return name
 
+    def contains(self, v):
+        return (type(v) is int and (self.lo is None or self.lo <= v) and (self.hi is None or v <= self.hi))
+
     def describe(self):
         return 'int %s..%s' % ('-inf' if self.lo is None else self.lo, '+inf' if self.hi is None else self.hi)
 
@@ -97,6 +110,9 @@ class Bool(Param):
 
     def build(self, name):
         return name
+
+    def contains(self, v):
+        return type(v) is bool
 
     def describe(self):
         return 'bool'
@@ -126,6 +142,9 @@ class OptInt(Param):
     def build(self, name):
         return name
 
+    def contains(self, v):
+        return v is None or (type(v) is int and (self.lo is None or self.lo <= v) and (self.hi is None or v <= self.hi))
+
     def describe(self):
         return 'None | int %s..%s' % ('-inf' if self.lo is None else self.lo, '+inf' if self.hi is None else self.hi)
 
@@ -146,6 +165,9 @@ class Const(Param):
 
     def build(self, name):
         return repr(self.value)
+
+    def contains(self, v):
+        return v == self.value
 
     def describe(self):
         return 'const %r' % (self.value,)
@@ -178,6 +200,17 @@ class Obligation:
             timeout = t.get('timeout', timeout)
             split = t.get('split', split)
         return params, timeout, split
+
+    def in_domain(self, tier, kwargs):
+        """do these concrete keyword arguments lie inside the tier's declared symbolic domain?  (Extra `pre:`
+        conditions cannot be evaluated here: obligations that declare any answer False.)"""
+        if self.pre:
+            return False
+        params = self.for_tier(tier)[0]
+        for name, p in params.items():
+            if name not in kwargs or not p.contains(kwargs[name]):
+                return False
+        return all(k in params for k in kwargs)
 
     def tags_for(self, tier):
         if tier == 'quick':
